@@ -267,6 +267,11 @@ def build(repo=None):
             ob("C20:_make_array:dtype-attribute-is-the-category-it-was-called-with", at.get("dtype") is dtype_in, ["C20"])
             ob("C20:_make_array:processed-attributes-come-from-_make_array_cached", at.get("array_type") is cached.items[0] and at.get("dtypes") is cached.items[2] and at.get("dims") is cached.items[3] and at.get("index_variadic") is cached.items[4] and at.get("dim_str") is cached.items[5], ["C20", "C15"])
             ob("C20:_make_array:class-is-named-as-computed-and-derives-from-AbstractArray", cd[0] is cached.items[1] and isinstance(cd[1], Tup) and len(cd[1].items) == 1, ["C20"])
+            keys = sorted(k for k in at if k != "__kw__")
+            # the class dict is what cloudpickle snapshots and re-applies to the LIVE class on load: it holds the defining attributes only -- no
+            # mutable per-class state such as the transparent flag (which stays a metaclass-level default until make_transparent sets it)
+            ob("C20:_make_array:the-class-dict-holds-exactly-the-defining-attributes(no-mutable-per-class-state-enters-a-by-value-snapshot)",
+               keys == sorted(["dtype", "array_type", "dtypes", "dims", "index_variadic", "dim_str", "_subscript_item"]), ["C20", "C12"], keys=",".join(keys))
     # round-trip lemma: rebuild(x) = x.dtype[x._subscript_item] = _make_array(item[0], item[1].strip(), x.dtype) -- same arguments as the original call
     gi = mod.func("_MetaAbstractDtype.__getitem__")
     functions.append({"qualname": "jaxtyping._array_types._MetaAbstractDtype.__getitem__", "sha256_16": mod.sha(gi), "lines": [gi.lineno, gi.end_lineno]})
